@@ -22,9 +22,11 @@ G_VALUE = ("list", 0, [7])
 UNARY = ["not", "neg", "ident", "len", "first", "attr", "isnone", "all_gt", "all_pos", "sum_star", "comp", "typeof"]
 NONE_ELEM = -9   # a list element that is None
 BINARY = ["add", "floordiv", "and", "or", "lt", "eq", "in", "star_then", "pairlen"]
+NEST_BINARY = ["all_nest"]   # only in its own family: its operands are names (they are written twice in the source)
 TERNARY = ["ifexp", "lt2", "and3", "or3"]
 ARITY = {k: 0 for k in ("int", "none", "true", "false", "name")}
 ARITY.update({k: 1 for k in UNARY})
+ARITY["all_nest"] = 2
 ARITY["fstr"] = 1     # f"{<c>}": only in its own family (its value is a string; the operators are not defined on those)
 ARITY.update({k: 2 for k in BINARY})
 ARITY.update({k: 3 for k in TERNARY})
@@ -76,6 +78,16 @@ class AllFail:
         return "False, e.g., with\n  e = {!r}".format(self.e)
 
 
+class AllFailNest:
+    """Expected rendering of a failed all(<generator>) with nested loop targets i, (e, d)."""
+
+    def __init__(self, i: int, e: Any, d: Any) -> None:
+        self.i, self.e, self.d = i, e, d
+
+    def __repr__(self) -> str:
+        return "False, e.g., with\n  i = {!r}\n  e = {!r}\n  d = {!r}".format(self.i, self.e, self.d)
+
+
 class Obj:
     def __init__(self, n: int) -> None:
         self.v = n
@@ -123,6 +135,11 @@ def py_value(v: dict, objs: Dict[int, Obj]) -> Any:
         return None
     if t == "list":
         return [None if e == NONE_ELEM else e for e in v["s"]]
+    if t == "allfail" and v["s"]:
+        kinds = {1: "int", 2: "bool", 3: "none", 4: "list", 5: "obj", 6: "cls", 7: "amb", 8: "fmt"}
+        i, ce, cd, dn = v["s"][:4]
+        return AllFailNest(i, py_value({"t": kinds[ce], "n": v["n"], "s": []}, objs),
+                           py_value({"t": kinds[cd], "n": dn, "s": list(v["s"][4:])}, objs))
     if t == "allfail":
         return AllFail(None if v["n"] == NONE_ELEM else v["n"])
     if t == "obj":
@@ -177,7 +194,7 @@ def parse(expr: list, p: int = 0) -> Tuple[dict, int]:
 
 
 ATOMIC = ("int", "none", "true", "false", "name", "ident", "len", "first", "attr", "all_gt", "all_pos", "sum_star", "comp", "typeof",
-          "star_then", "pairlen", "fstr")
+          "star_then", "pairlen", "fstr", "all_nest")
 
 
 def render(node: dict, rec: bool = False) -> str:
@@ -213,6 +230,8 @@ def render(node: dict, rec: bool = False) -> str:
         s = "ident(" + sub(0, False) + ")"
     elif k == "len":
         s = "len(" + sub(0, False) + ")"
+    elif k == "all_nest":
+        s = "all(e > 0 for i, (e, d) in [(0, ({0}, {1})), (1, ({1}, {0}))])".format(sub(0), sub(1))
     elif k == "fstr":
         s = 'f"{' + sub(0) + '}"'
     elif k == "all_gt":
@@ -263,26 +282,29 @@ def texts(node: dict, out: Dict[int, str]) -> None:
 
 
 def expr_cfg(sw_eager: bool, sw_or: bool, invariants: List[str], sw_allfail: bool = False, sw_nostar: bool = False,
-             sw_compleak: bool = False, sw_lasttruth: bool = False) -> str:
+             sw_compleak: bool = False, sw_lasttruth: bool = False, sw_fstr: bool = False) -> str:
     lines = ["SPECIFICATION ESpec", "CONSTANTS", "  CaseSpace <- MCCaseSpace",
              "  SwEagerBool = {}".format("TRUE" if sw_eager else "FALSE"),
              "  SwOrSeedTrue = {}".format("TRUE" if sw_or else "FALSE"),
              "  SwAllFailLeaks = {}".format("TRUE" if sw_allfail else "FALSE"),
              "  SwNoStarred = {}".format("TRUE" if sw_nostar else "FALSE"),
              "  SwCompTargetLeaks = {}".format("TRUE" if sw_compleak else "FALSE"),
-             "  SwLastOperandTruth = {}".format("TRUE" if sw_lasttruth else "FALSE")]
+             "  SwLastOperandTruth = {}".format("TRUE" if sw_lasttruth else "FALSE"),
+             "  SwFStringOpaque = {}".format("TRUE" if sw_fstr else "FALSE")]
     for inv in invariants:
         lines.append("INVARIANT " + inv)
     lines.append("CHECK_DEADLOCK FALSE")
     return "\n".join(lines) + "\n"
 
 
-EXPR_INVARIANTS = ["RecomputeWithinEvaluated", "ViolationSurfaces", "ShownSound", "ShownComplete", "AllCounterexample"]
+EXPR_INVARIANTS = ["RecomputeWithinEvaluated", "ViolationSurfaces", "ShownSound", "ShownComplete", "AllCounterexample",
+                   "AllNestCounterexample"]
 
 
 def model_check_expr(cases: List[dict], sw_eager: bool = False, sw_or: bool = False,
                      invariants: Optional[List[str]] = None, emit: bool = True, sw_allfail: bool = False,
-                     sw_nostar: bool = False, sw_compleak: bool = False) -> Tuple[tlc.TlcResult, Dict[int, dict], Dict[int, dict]]:
+                     sw_nostar: bool = False, sw_compleak: bool = False,
+                     sw_fstr: bool = False) -> Tuple[tlc.TlcResult, Dict[int, dict], Dict[int, dict]]:
     wd = tlc.scratch_dir("icv-expr-")
     try:
         cfile = os.path.join(wd, "cases.ndjson")
@@ -292,7 +314,7 @@ def model_check_expr(cases: List[dict], sw_eager: bool = False, sw_or: bool = Fa
         invs = list(EXPR_INVARIANTS if invariants is None else invariants)
         if emit:
             invs += ["PrintCase", "PrintPy"]
-        res = tlc.run_tlc("MC_Expr", expr_cfg(sw_eager, sw_or, invs, sw_allfail, sw_nostar, sw_compleak), wd, workers=16, env={"CASES": cfile})
+        res = tlc.run_tlc("MC_Expr", expr_cfg(sw_eager, sw_or, invs, sw_allfail, sw_nostar, sw_compleak, sw_fstr=sw_fstr), wd, workers=16, env={"CASES": cfile})
         viol, py = {}, {}
         for pr in res.prints:
             if isinstance(pr, dict) and "cid" in pr:
@@ -745,6 +767,19 @@ def fam_typeof(rng: random.Random) -> List[list]:
             ia, ib = [_nd("ident")] + a, [_nd("ident")] + b
             out += [[_nd("lt2")] + i0 + ia + i2, [_nd("lt2")] + ia + ib + i2, [_nd("lt2")] + i0 + ia + ib,
                     [_nd("lt2")] + ia + i2 + ib, [_nd("not")] + [_nd("ident")] + [_nd("lt2")] + i0 + ia + ib]
+    return out
+
+
+def fam_all_nest() -> List[list]:
+    """A quantifier with nested loop targets ``for i, (e, d) in ...``: the example names every loop variable."""
+    names = [[_nd("name", 1)], [_nd("name", 2)], [_nd("name", 3)]]
+    out = []
+    for a in names:
+        for b in names:
+            q = [_nd("all_nest")] + a + b
+            out += [q, [_nd("and")] + q + [_nd("true")], [_nd("or")] + q + [_nd("false")], [_nd("not")] + [_nd("not")] + q,
+                    [_nd("ident")] + q, [_nd("eq")] + q + [_nd("true")], [_nd("ifexp")] + q + [_nd("true")] + [_nd("false")],
+                    [_nd("and")] + a + q, [_nd("isnone")] + q]
     return out
 
 
